@@ -204,6 +204,26 @@ func c09BudgetDER(c *Ctx) c09Fam {
 
 // ---------- Base64 text ----------
 
+// c09JWTFamily: tokens whose header lists critical extension parameters (RFC 7515 4.1.11) - names the tool
+// does not know, and names that are registered claims - before and after ordinary tokens with those claims.
+func c09JWTFamily(c *Ctx) c09Fam {
+	f := c09Fam{name: "jwt-crit"}
+	add := func(tag, name string, d []byte) int {
+		f.items = append(f.items, c09In{"jwt-" + tag, name, d})
+		return len(f.items) - 1
+	}
+	ord := add("ordinary", "o.jwt", jwtWith(map[string]any{"aud": "audience-1", "exp": 1700000000, "iss": "issuer", "sub": "subject", "jti": "id-1", "nbf": 1600000000, "iat": 1650000000},
+		map[string]any{"alg": "RS256", "typ": "JWT", "kid": "key-1"}))
+	crit := add("crit-claim-names", "c.jwt", jwtWith(map[string]any{"aud": "audience-2", "exp": 1363284000},
+		map[string]any{"alg": "ES256", "crit": []string{"exp", "aud", "iss", "sub", "jti", "nbf", "iat"}, "exp": 1363284000}))
+	crit2 := add("crit-unknown-names", "d.jwt", jwtWith(map[string]any{"sub": "x"},
+		map[string]any{"alg": "HS256", "crit": []string{"b64", "http://example.invalid/UNDEFINED", "x1", "x2", "x3", "x4", "x5", "x6", "x7", "x8"}, "b64": false}))
+	hdrClaims := add("claims-in-header", "h.jwt", jwtWith(map[string]any{"kid": "in-payload", "typ": "in-payload"},
+		map[string]any{"alg": "none", "iss": "in-header", "aud": "in-header", "sub": "in-header"}))
+	f.seqs = append(f.seqs, []int{ord, crit, ord, crit2, ord, hdrClaims, ord, crit, crit2, ord})
+	return f
+}
+
 // c09B64Family: texts of one length: valid, invalid, valid (standard and URL alphabets).
 func c09B64Family(c *Ctx) c09Fam {
 	f := c09Fam{name: "b64-same-length"}
